@@ -93,7 +93,52 @@ Lemma tie_empty_file size : 0 <= size -> (src_read_pairs_shortcut size = true <-
 Proof. unfold src_read_pairs_shortcut. lia. Qed.
 
 (* ---- the pair file: one row "i1 i2 d12" per pair, read back with the matching dtype *)
+(* ---- one candidate row, the error class of the size checks, the defaults of the optional arguments *)
+Lemma tie_row i (c : cnd) : src_row i (fst c) (snd c) = (i, fst c, snd c).
+Proof. reflexivity. Qed.
+
+Lemma tie_error_classes :
+  src_matcher_init_error = EValue /\ src_matcher_match_error = EValue /\ src_htm_match_error = EValue.
+Proof. repeat split; reflexivity. Qed.
+
+Lemma tie_sizes_with_class dis cover sorter tri m n2 n2dec n1 n1dec rads k :
+  matcher_init tri n2 n2dec
+    = (if src_matcher_init_rejects (Z.of_nat n2) (Z.of_nat n2dec) then Err src_matcher_init_error else Ok (matcher_new tri n2))
+  /\ matcher_match dis cover sorter m n1 n1dec rads k
+    = (if src_matcher_match_rejects (Z.of_nat n1) (Z.of_nat n1dec) (Z.of_nat (length rads)) then Err src_matcher_match_error
+       else Ok (match_loop dis cover sorter (m_hmap m) k rads n1))
+  /\ htm_match dis cover sorter tri n2 n2dec n1 n1dec rads k
+    = (if src_htm_match_rejects (Z.of_nat n1) (Z.of_nat n1dec) (Z.of_nat n2) (Z.of_nat n2dec) (Z.of_nat (length rads))
+       then Err src_htm_match_error
+       else do m <- matcher_init tri n2 n2dec; matcher_match dis cover sorter m n1 n1dec rads k).
+Proof.
+  destruct tie_error_classes as [E1 [E2 E3]]. rewrite E1, E2, E3.
+  split; [apply tie_matcher_init|]. split; [apply tie_matcher_match|apply tie_htm_match].
+Qed.
+
+Lemma tie_defaults :
+  src_matcher_match_default_maxmatch = default_maxmatch /\ src_htm_match_default_maxmatch = default_maxmatch
+  /\ src_default_file_is_none = (true, true).
+Proof. repeat split; reflexivity. Qed.
+
 Import Coq.Strings.String.
+(* ---- calls and columns, argument by argument *)
+Definition expected_dis_call : list string * bool := (["ra"; "dec"; "tra"; "tdec"], true)%string.
+Definition expected_file_columns : list string := ["i1"; "i2"; "d12"]%string.
+Definition expected_memory_columns : list (string * string) := [("m1", "i1"); ("m2", "i2"); ("d12", "d12")]%string.
+Definition expected_idlist_order : list string := ["flist"; "plist"]%string.
+Definition expected_htm_builds : list string * list (string * string) := (["depth"; "ra2"; "dec2"], [])%string.
+Definition expected_htm_calls : list string * list (string * string) :=
+  (["ra1"; "dec1"; "radius"], [("maxmatch", "maxmatch"); ("file", "filename")])%string.
+Definition expected_matcher_calls : list string * list (string * string) :=
+  (["ra"; "dec"; "radius"; "maxmatch"; "filename"], [])%string.
+Lemma tie_calls_and_columns :
+  src_dis_call = expected_dis_call /\ src_file_columns = expected_file_columns
+  /\ src_memory_columns = expected_memory_columns /\ src_idlist_order = expected_idlist_order
+  /\ src_htm_builds = expected_htm_builds /\ src_htm_calls = expected_htm_calls
+  /\ src_matcher_calls = expected_matcher_calls.
+Proof. repeat split; reflexivity. Qed.
+
 Definition expected_pair_format : string := ("%ld %ld %.16g" ++ String (Ascii.ascii_of_nat 10) EmptyString)%string.
 Definition expected_pair_dtype : list (string * string) := [("i1", "i8"); ("i2", "i8"); ("d12", "f8")]%string.
 Definition expected_pair_delim : string := " "%string.
